@@ -42,7 +42,7 @@ pub fn node_e<'s, I: Kind<'s>, R: Er<'s, I>>(this: &mut Bld<'s, I, R>, g: &G) ->
         WithCtx(a, s) => this.build(a).with_ctx(Val::Str(s.clone())).cb(),
         ThenWithCtx(a, c) => {
             let (a, c) = (this.build(a), this.build(c));
-            a.then_with_ctx(c).map(|(a, c)| Val::pair(a, c)).cb()
+            a.then_with_ctx(c).mb(|(a, c)| Val::pair(a, c))
         }
         IgnoreWithCtx(a, c) => {
             let (a, c) = (this.build(a), this.build(c));
